@@ -495,6 +495,28 @@ func vRunC09(c *vCase) {
 				f.truth[ch][at+j] += RawType(v)
 			}
 		}
+		if vChance(r, 0.25) && nsamp > 2 {
+			// a second pulse on another triggering channel less than one record later: two sources of one receiver then fire
+			// within a record length of each other (every primary frame is a secondary of the receiver, however close they are)
+			d := 1 + r.Intn(nsamp-1)
+			for try := 0; try < 8 && at+d+nsamp < total; try++ {
+				c2 := r.Intn(nchan)
+				if !hasTrig[c2] || owner[at][c2] {
+					continue
+				}
+				owner[at+d] = map[int]bool{c2: true}
+				for j := 0; j < nsamp/2 && at+d+j < total; j++ {
+					v := 1000 - j*(2000/nsamp+1)
+					if v < 0 {
+						v = 0
+					}
+					f.truth[c2][at+d+j] += RawType(v)
+				}
+				c.Cov("pulses_within_a_record_of_another_channels_pulse", 1)
+				at += d
+				break
+			}
+		}
 		at += nsamp + 8 + r.Intn(2*nsamp)
 	}
 	model := map[vPair]bool{}
